@@ -28,10 +28,14 @@ From RichGen Require BoxChars.
 Definition FLEXMIN : bool := BoxChars.FLEXMIN_MEASURED.
 
 (* ---------------------------------------------------------------- configuration, inherited options *)
-Record cfg := mkCfg {
+Record cfg := mkCfgC {
   cW : Z;              (* console.width: Align measures its child, Panel renders its title, against it *)
-  fix_d20 : bool
+  fix_d20 : bool;
+  has_color : bool     (* console.color_system is not None: the only thing of the colour system that changes the
+                          CELLS of a rendering (ProgressBar draws its remaining part only then) *)
 }.
+(* the configuration without a colour system (color_system=None) *)
+Definition mkCfg (w : Z) (fx : bool) : cfg := mkCfgC w fx false.
 
 (* the ConsoleOptions fields that travel from parent to child besides the width *)
 Record ropts := mkRO { ro_justify : option Z; ro_overflow : option Z; ro_nowrap : bool }.
@@ -149,10 +153,11 @@ Definition bar_measure (bw : option Z) (w : Z) : Z * Z :=
 Definition bar_child (size b e : Z) (bw : option Z) : child :=
   mkChild (bar_measure bw) (fun W => [mkSeg (bar_text size b e bw W) None false; nlseg]).
 
-(* ProgressBar yields no new line; color_system = None, utf-8, animation_time given *)
-Definition pbar_child (total completed : Z) (pw : option Z) (pulse : bool) (t : Z) : child :=
+(* ProgressBar yields no new line; hc = console.color_system is not None, no_color = False, utf-8,
+   animation_time given *)
+Definition pbar_child (hc : bool) (total completed : Z) (pw : option Z) (pulse : bool) (t : Z) : child :=
   mkChild (bar_measure pw)
-          (fun W => match pbar_text total completed pw pulse t false false false W with
+          (fun W => match pbar_text total completed pw pulse t false hc false W with
                     | [] => []
                     | s => [mkSeg s None false]
                     end).
@@ -356,7 +361,7 @@ Fixpoint den (cf : cfg) (r : R) (ro : ropts) {struct r} : child :=
   | Group cs fit => group_child (map (fun c => den cf c ro) cs) fit
   | Rule title chars how => rule_child title chars how
   | Bar size b e w => bar_child size b e w
-  | PBar total completed w pulse t => pbar_child total completed w pulse t
+  | PBar total completed w pulse t => pbar_child (has_color cf) total completed w pulse t
   | Tbl t rows => table_child cf t (map (map (fun c => den cf c)) rows) ro
   | Cols items o => columns_child cf (map (fun c => den cf c) items) o ro
   | Tree lab kids ex => tree_child (TNode (den cf lab ro) (None, None) ex (map (fun k => node_of cf k ro) kids))
